@@ -1,5 +1,6 @@
 SPECIFICATION Spec
 CONSTANTS
+  Fault = "none"
   Cfgs <- MS_Cfgs
   Soc0s <- SocMin
   Dts <- Dt2
